@@ -731,4 +731,6 @@ func TestC14(t *testing.T) {
 	h.Run(c, "interleave", c.N(3000, 20000), genInterleave, oracleInterleave)
 	c.Rule("importtypes: an environment 1-3 scopes below a base imports one of the bundled packages that has a type table (four spellings: assigned, bare, inside a function, twice); afterwards a type name of that package must be unknown (Env.Type and `make(T)` both fail) in a sibling under the same base, in the base, in a grandchild of the base and in an unrelated root; non-trivial = the import ran")
 	h.Run(c, "importtypes", c.N(1500, 15000), genImportTypes, oracleImportTypes)
+	c.Rule("objects: 1-3 programs that import a bundled package, make an object with a constructor of its table (compiled regular expression - four constructors -, byte buffer, string reader, replacer, big integer, parsed URL, error value) from arguments that carry a number drawn from 0..2^24 (the programs of a case share them), observe it through 1-5 method calls of which some change the object (Longest, WriteString, ReadByte, Reset, Add, SetInt64, field stores ...), and return the list of observations; 4-8 executions, each in a fresh environment, then optionally every program from 2-3 goroutines at once; every execution of one source must give the result its first execution gave; non-trivial = a program ran at least twice and some program changes its object and observes it afterwards")
+	h.Run(c, "objects", c.N(1200, 10000), genObjects, oracleObjects)
 }
